@@ -450,9 +450,16 @@ func Exec(fsys hackpadfs.FS, st Step, hs *Handles, mt MTimeSet) (res Result) {
 			res.Data = "write:" + okFail(werr)
 		} else if acc == 0 {
 			buf := make([]byte, 24)
-			n, rerr := io.ReadFull(f, buf)
+			// (not io.ReadFull: its own io.ErrUnexpectedEOF for a short file cannot be told from a handle that failed with that value)
+			n := 0
+			var rerr error
+			for tries := 0; n < len(buf) && rerr == nil && tries < 64; tries++ {
+				var m int
+				m, rerr = f.Read(buf[n:])
+				n += m
+			}
 			res.Data = "read:" + string(buf[:n])
-			if rerr != nil && rerr != io.EOF && rerr != io.ErrUnexpectedEOF {
+			if rerr != nil && rerr != io.EOF {
 				res.Data = "read:fail"
 			}
 		}
